@@ -177,6 +177,11 @@ impl Property for C14 {
         }
         case.delivery = gen_delivery(rng, case.stream().len());
         case.delivery.whole = false;
+        if !process && rng.chance(1, 6) {
+            // the same world with a standard output that stops accepting bytes somewhere
+            // inside the rows: the run must end (with an error), not keep reading
+            case.set("sinkfail", rng.range(1, 1000) as i64);
+        }
         case
     }
 
@@ -350,6 +355,32 @@ impl Property for C14 {
         }
         if case.family == "endless-process" {
             return check_process(case, &prefix, endless, d, &l1, ctx);
+        }
+        let frac = case.param("sinkfail");
+        if frac > 0 && !l1.obs.stdout.is_empty() && l1.outcome.is_ok() {
+            let k = ((frac as usize - 1) * l1.obs.stdout.len()) / 1000;
+            let mut spec = case_spec(case, &prefix);
+            spec.byte_budget = prefix.len().max(d) + BUDGET_EXTRA;
+            spec.max_events = 2_000_000;
+            spec.out.fail = Some(Fault {
+                at: k,
+                kind: ErrKind::BrokenPipe,
+                sticky: true,
+            });
+            let f = ctx.exec(spec);
+            ctx.stats.fault("endless-input.failing-sink", 1);
+            if let Outcome::Abort(why) = &f.outcome {
+                return viol(
+                    "C14.terminates",
+                    format!("with a standard output that fails at byte {k} jawk keeps reading the endless input: {why} (consumed {} bytes)", f.obs.consumed),
+                );
+            }
+            if f.obs.out_fault_delivered && f.outcome.is_ok() {
+                return viol(
+                    "C14.terminates",
+                    format!("standard output failed at byte {k} but the run on the endless input returned Ok"),
+                );
+            }
         }
         None
     }
